@@ -1,3 +1,6 @@
 -- This module serves as the root of the `SqliteDissect` library.
 -- Import modules here that should be built as part of the library.
 import SqliteDissect.Basic
+import SqliteDissect.Model.RegexCost
+import SqliteDissect.Proofs.RegexCost
+import SqliteDissect.Properties.C18Regex
